@@ -204,7 +204,7 @@ func (st *c18kState) mini(pk *packages.Package) *Mini {
 		}
 		return nil, false
 	}
-	m.Unroll = func(m *Mini, rs *ast.RangeStmt) (int, func(int) (MV, MV), bool) {
+	m.Unroll = func(m *Mini, rs *ast.RangeStmt, _ func(ast.Expr) MV) (int, func(int) (MV, MV), bool) {
 		t := m.Info.TypeOf(rs.X)
 		if t == nil {
 			return 0, nil, false
